@@ -19,7 +19,7 @@ DRIVER = "Driver/C15.lean"
 OBLIGATIONS = ["NiftyVerif.C15." + t for t in (
     "static_eq_eager", "static_terminates", "eager_info_range", "cg_residual_invariant",
     "cg_reports_success_only_if", "nonposdef_reports_failure", "nonposdef_energy_not_above_start",
-    "first_step_steepest_descent", "spd_never_fails", "maxiter0_disagree", "driver_residual_invariant", "driver_static_eq_eager")]
+    "first_step_steepest_descent", "spd_never_fails", "normLt_encodings_exact", "maxiter0_disagree", "driver_residual_invariant", "driver_static_eq_eager")]
 RULE = ("systems = (matrix kind, dimension, pytree shape, j, x0) x stopping configuration (absdelta/resnorm/tol/atol/"
         "miniter/maxiter/_raise_nonposdef), thresholds placed between consecutive trajectory values so that convergence "
         "falls before/at/after the iteration limit; non-trivial = at least one CG iteration is executed; distinct by "
